@@ -58,6 +58,7 @@ class Unit:
         self.postlude = []
         self.fns = {}             # name -> FnSpec
         self.rewrites = []        # [(regex, repl, note)]
+        self.expands = []         # [(macro name, rel path of its macro_rules! definition)]  (R14)
         self.includes = []
         self.canaries = []        # [(name, file, regex, repl, expect-fn)]
         self.rlimit = None
@@ -110,6 +111,9 @@ class Unit:
                 self.name = arg
             elif d == "property":
                 self.properties = arg.split()
+            elif d == "expand":
+                mm = re.match(r"(\w+)\s+from\s+(\S+)", arg)
+                self.expands.append((mm.group(1), mm.group(2)))
             elif d == "import":
                 # merge every directive of another unit (its sources, rewrites, prelude, contracts)
                 other = Unit(os.path.join(base, arg))
@@ -117,6 +121,7 @@ class Unit:
                 self.prelude += other.prelude
                 self.postlude += other.postlude
                 self.rewrites += other.rewrites
+                self.expands += other.expands
                 self.includes += other.includes + [arg]
                 for k, v in other.fns.items():
                     self.fns.setdefault(k, v)
@@ -865,7 +870,32 @@ def build(unit, repo_root, source_map=None, probe=None):
         PROBE = None
 
 
+_MACROS = []   # [(name, pattern, transcriber)] of the unit being built
+
+
+def _item_text(src, it):
+    """item text with the unit's `//@expand` macros expanded (R14)"""
+    txt = src.item_text(it)
+    for name, pat, tr in _MACROS:
+        if (name + "!") in txt:
+            from . import macroexp
+            try:
+                txt, _n = macroexp.expand(txt, name, pat, tr)
+            except macroexp.MacroError as e:
+                raise ExtractError("unsupported-construct", "macro %s!: %s" % (name, e))
+    return txt
+
+
 def _build(unit, repo_root, source_map=None):
+    global _MACROS
+    _MACROS = []
+    for name, rel in unit.expands:
+        from . import macroexp
+        try:
+            pat, tr = macroexp.parse_definition(open(os.path.join(repo_root, rel)).read(), name)
+        except (OSError, macroexp.MacroError) as e:
+            raise ExtractError("lost-anchor", "macro_rules! %s in %s: %s" % (name, rel, e))
+        _MACROS.append((name, pat, tr))
     em = Emitted()
     source_map = source_map or {}
     chunks = []
@@ -913,7 +943,7 @@ def _build(unit, repo_root, source_map=None):
                     ty = "%s for %s" % (mt.group(2), mt.group(1))   # `impl Trait for Type { .. }`
                 if spec:
                     used.add(q)
-                txt = generic_rewrites(src.item_text(f))
+                txt = generic_rewrites(_item_text(src, f))
                 if not mt:
                     txt = r_pub_item(txt)
                 txt, lost = splice_fn(txt, spec)
@@ -935,7 +965,7 @@ def _build(unit, repo_root, source_map=None):
                     if ("fn " + q) in dropspecs:
                         em.dropped.append("%s: fn %s (dropped by unit)" % (rel, q))
                         continue
-                    txt = generic_rewrites(src.item_text(f))
+                    txt = generic_rewrites(_item_text(src, f))
                     if tr is None and f.kind in ("fn", "const"):
                         txt = r_pub_item(txt)
                     if f.kind == "fn":
@@ -961,7 +991,7 @@ def _build(unit, repo_root, source_map=None):
                 spec = unit.fns.get(q)
                 if spec:
                     used.add(q)
-                txt = r_pub_item(generic_rewrites(src.item_text(it)))
+                txt = r_pub_item(generic_rewrites(_item_text(src, it)))
                 txt, lost = splice_fn(txt, spec)
                 for a in lost:
                     em.lost_anchors.append((q, a))
@@ -975,7 +1005,7 @@ def _build(unit, repo_root, source_map=None):
                 if it.kind == "struct" and re.search(r"derive\([^)]*PartialOrd", raw):
                     chunks.append(gen_ord(txt))
             else:
-                chunks.append(r_pub_item(generic_rewrites(src.item_text(it))) + "\n")
+                chunks.append(r_pub_item(generic_rewrites(_item_text(src, it))) + "\n")
     missing = [q for q in unit.fns if q not in used]
     if missing:
         raise ExtractError("lost-anchor", "functions under contract not found: %s" % ", ".join(missing))
